@@ -1116,3 +1116,113 @@ def all_cases(rng, cx=False, groups=None):
         for c in fn(rng, cx):
             c["group"] = g
             yield c
+
+
+# ---------------------------------------------------------------- scipy (secondary interpreter only)
+
+SP_UNARY = {"gamma": "pos", "gammaln": "pos", "digamma": "pos", "psi": "pos", "rgamma": "pos", "j0": "pos", "y0": "pos", "j1": "pos", "y1": "pos", "i0": "any", "i1": "any",
+            "erf": "any", "erfc": "any", "erfinv": "unit", "erfcinv": "frac", "logit": "frac", "expit": "any"}
+
+
+def _dom(rng, shape, dom):
+    if dom == "frac":
+        return rng.uniform(0.15, 0.85, size=shape)
+    return sample(rng, shape, dom)
+
+
+def gen_scipy(rng, cx=False):
+    if cx:
+        return
+    for name, dom in SP_UNARY.items():
+        for shp in ((), (3,), (2, 3), (1,), (2, 1, 2)):
+            yield case(name, [_dom(rng, shp, dom)], ns="scipy.special")
+        yield case(name, [float(_dom(rng, (), dom))], ns="scipy.special")
+    for name in ("polygamma", "jn", "yn", "iv", "ive"):
+        for n in (0, 1, 2):
+            for shp in ((), (3,), (2, 2)):
+                yield case(name, [n, _dom(rng, shp, "pos")], ns="scipy.special", argnum=1)
+    for name in ("gammainc", "gammaincc"):
+        for shp in ((), (3,)):
+            yield case(name, [1.7, _dom(rng, shp, "pos")], ns="scipy.special", argnum=1)
+            yield case(name, [_dom(rng, shp, "pos") + 0.5, _dom(rng, shp, "pos")], ns="scipy.special", argnum=1)
+    for name in ("beta", "betaln"):
+        for (sa, sb) in (((), ()), ((3,), (3,)), ((2, 3), (3,)), ((3,), ())):
+            for argnum in (0, 1):
+                yield case(name, [_dom(rng, sa, "pos") + 0.3, _dom(rng, sb, "pos") + 0.3], ns="scipy.special", argnum=argnum)
+    for name in ("betainc",):
+        yield case(name, [1.4, 2.3, _dom(rng, (3,), "frac")], ns="scipy.special", argnum=2)
+    # logsumexp
+    for shp in ((4,), (2, 3), (2, 3, 2), (1,), ()):
+        r = len(shp)
+        for ax in ["__default__", None] + list(range(r)) + ([-1] if r else []) + ([(0, 1), (-1, 0)] if r >= 2 else []):
+            for kd in ("__default__", True):
+                kw = {}
+                if ax != "__default__":
+                    kw["axis"] = ax
+                if kd != "__default__":
+                    kw["keepdims"] = kd
+                yield case("logsumexp", [A(rng, shp, "any")], kw, ns="scipy.special")
+        if r:
+            yield case("logsumexp", [A(rng, shp, "any")], {"b": sample(rng, shp, "pos")}, ns="scipy.special")
+            yield case("logsumexp", [A(rng, shp, "any")], {"b": sample(rng, shp, "pos"), "axis": 0}, ns="scipy.special")
+            yield case("logsumexp", [A(rng, shp, "any")], {"b": 2.0, "axis": -1, "keepdims": True}, ns="scipy.special")
+            yield case("logsumexp", [A(rng, shp, "any"), r - 1], ns="scipy.special")
+    # signal.convolve
+    for (sa, sb, kw) in (((5,), (3,), {}), ((3,), (5,), {}), ((5,), (3,), {"mode": "valid"}), ((5,), (3,), {"mode": "full"}), ((3,), (5,), {"mode": "valid"}), ((4, 5), (2, 3), {}), ((4, 5), (2, 3), {"mode": "valid"}),
+                         ((2, 3), (4, 5), {"mode": "valid"}), ((4, 4), (3, 3), {"mode": "full"}), ((3, 4, 5), (2, 2, 2), {}), ((3, 4, 5), (2, 2, 2), {"mode": "valid"}), ((2, 5), (2, 3), {"axes": ([1], [1]), "dot_axes": ([0], [0])}),
+                         ((2, 5), (2, 3), {"axes": ([1], [1]), "dot_axes": ([0], [0]), "mode": "valid"}), ((3, 5), (4, 3), {"axes": ([1], [0])}), ((3, 5), (4, 3), {"axes": ([1], [0]), "mode": "valid"}), ((2, 4, 5), (2, 2, 3), {"axes": ([1, 2], [1, 2]), "dot_axes": ([0], [0])}),
+                         ((3, 3), (3, 3), {}), ((3, 3), (3, 3), {"mode": "valid"}), ((1,), (4,), {}), ((4,), (1,), {"mode": "valid"})):
+        for argnum in (0, 1):
+            yield case("convolve", [A(rng, sa, "any"), A(rng, sb, "any")], kw, ns="scipy.signal", argnum=argnum)
+    # scipy.linalg
+    for n in (2, 3):
+        for lower in (False, True):
+            for trans in (0, 1, "T", "N"):
+                a = (onp.tril if lower else onp.triu)(well_cond(rng, (n, n)))
+                for bs in ((n,), (n, 2)):
+                    for argnum in (0, 1):
+                        yield case("solve_triangular", [a, A(rng, bs, "any")], {"lower": lower, "trans": trans}, ns="scipy.linalg", argnum=argnum, domain=("tril" if lower else "triu") if argnum == 0 else None)
+        yield case("sqrtm", [spd(rng, (n, n))], ns="scipy.linalg")
+        for argnum in (0, 1, 2):
+            yield case("solve_sylvester", [well_cond(rng, (n, n)), well_cond(rng, (n, n)), A(rng, (n, n), "any")], ns="scipy.linalg", argnum=argnum)
+    # scipy.stats
+    for dist, funs, nargs in (("norm", ("pdf", "cdf", "logpdf", "logcdf", "sf", "logsf"), 3), ("t", ("pdf", "cdf", "logpdf", "logcdf"), 4), ("gamma", ("pdf", "cdf", "logpdf"), 2), ("beta", ("pdf", "cdf", "logpdf"), 3), ("chi2", ("pdf", "logpdf"), 2), ("poisson", ("pmf", "logpmf", "cdf"), 2)):
+        for fn in funs:
+            for shp in ((), (3,), (2, 3)):
+                if dist == "norm":
+                    base = [A(rng, shp, "any"), float(rng.uniform(-0.5, 0.5)), float(rng.uniform(0.7, 1.6))]
+                elif dist == "t":
+                    base = [A(rng, shp, "any"), float(rng.uniform(2.5, 5.0)), float(rng.uniform(-0.5, 0.5)), float(rng.uniform(0.7, 1.6))]
+                elif dist == "gamma":
+                    base = [sample(rng, shp, "pos"), float(rng.uniform(1.5, 3.0))]
+                elif dist == "beta":
+                    base = [_dom(rng, shp, "frac"), float(rng.uniform(1.5, 3.0)), float(rng.uniform(1.5, 3.0))]
+                elif dist == "chi2":
+                    base = [sample(rng, shp, "pos") + 0.5, float(rng.uniform(2.5, 5.0))]
+                else:
+                    base = [onp.floor(sample(rng, shp, "pos") * 3.0), float(rng.uniform(1.5, 3.0))]
+                for argnum in range(nargs):
+                    yield case(fn, list(base), ns="scipy.stats." + dist, argnum=argnum)
+                # array-valued parameters broadcast against x
+                if shp == (2, 3) and dist == "norm":
+                    yield case(fn, [A(rng, shp, "any"), A(rng, (3,), "small"), sample(rng, (2, 1), "pos") + 0.5], ns="scipy.stats.norm", argnum=1, tags=["bcast_params"])
+                    yield case(fn, [A(rng, shp, "any"), A(rng, (3,), "small"), sample(rng, (2, 1), "pos") + 0.5], ns="scipy.stats.norm", argnum=2, tags=["bcast_params"])
+                    yield case(fn, [A(rng, (3,), "any"), A(rng, shp, "small"), 1.3], ns="scipy.stats.norm", argnum=0, tags=["bcast_params"])
+    m = onp.array([0.3, -0.2, 0.5])
+    cov = spd(rng, (3, 3))
+    for fn in ("logpdf", "pdf", "entropy"):
+        for argnum in ((0, 1, 2) if fn != "entropy" else (1,)):
+            args = [A(rng, (3,), "any"), m.copy(), cov.copy()] if fn != "entropy" else [m.copy(), cov.copy()]
+            yield case(fn, args, ns="scipy.stats.multivariate_normal", argnum=argnum, domain="herm" if (argnum == 2 or (fn == "entropy" and argnum == 1)) else None)
+        if fn != "entropy":
+            yield case(fn, [A(rng, (4, 3), "any"), m.copy(), cov.copy()], ns="scipy.stats.multivariate_normal", argnum=0, tags=["batch_x"])
+    yield case("logpdf", [_dom(rng, (3,), "frac") / 2.0, sample(rng, (3,), "pos") + 0.5], ns="scipy.stats.dirichlet", argnum=1)
+
+
+SCIPY_GROUPS = {"scipy": gen_scipy}
+
+
+def scipy_cases(rng):
+    for c in gen_scipy(rng, False):
+        c["group"] = "scipy"
+        yield c
